@@ -9,13 +9,15 @@ from .common import Disagreement, drive, ROOT
 
 PROP_MODULE = 'PbVerif.Props.C11'
 GEN_TABLES = ('Diags',)
-RULE = ('cases = (function, N, d, lower_only, padding) for the band/matrix builders and (N, pentapy?, reconfiguration history) '
-        'for PenalizedSystem/PSpline; non-trivial = N>d with at least one non-default option or a history of length >= 2; '
+RULE = ('cases = (function, N, d, lower_only, padding) for the band/matrix builders, (N, pentapy?, reconfiguration history) '
+        'for PenalizedSystem/PSpline, and (2-D system kind: Kronecker / P-spline / eigendecomposition, shape, number of eigenvalues, (lam, order) history); non-trivial = N>d with at least one non-default option or a history of length >= 2; '
         'distinct by canonical tuple')
 ASSUMPTIONS = [
     'translate.py renders the slice-assignment fragment of _diff_{1,2,3}_diags faithfully (also diffed against the real functions every run)',
     'SciPy sparse products / todia on the general path of diff_penalty_diagonals (d>3 or N<2d+1) are tied by the correspondence only',
     'integer-valued float arithmetic is exact',
+    'LAPACK eig_banded / eigh_tridiagonal (2-D eigendecomposition mode) are black boxes: their output is certified on the explored inputs by '
+    "orthonormality, the residual |P B - B diag(v)| <= 1e-8 |P| against the model's exact D'D, and agreement with the smallest eigenvalues",
 ]
 
 
@@ -119,6 +121,165 @@ def check_history(ctx, n, cfgs):
     return line, sys_state(s), fail
 
 
+# ---------------------------------------------------------------------------------------------------------------------------------
+# 2-D systems: the penalty applied by the 2-D Whittaker / P-spline methods is lam_r kron(D_r'D_r, I) + lam_c kron(I, D_c'D_c); in the
+# eigendecomposition mode it is that operator expressed in the retained eigenvectors of D_r'D_r and D_c'D_c.
+def dtd_from_model(pairs):
+    """exact D'D for every (n, d) pair, from the Lean model (c11.dtd)"""
+    pairs = sorted(set(pairs))
+    res = drive([f'c11.dtd {n} {d}' for n, d in pairs])
+    return {k: np.array([[int(v) for v in row.split(',')] for row in r.split(';')], dtype=float) for k, r in zip(pairs, res)}
+
+
+def eigen_axis_fail(P, vals, B, d):
+    """`vals`, `B` must be the k smallest eigenpairs of P = D'D (the d zero eigenvalues set to exactly 0)"""
+    n, k = B.shape
+    scale = max(1.0, float(np.abs(P).sum(axis=1).max()))
+    if vals.shape != (k,) or not np.all(np.isfinite(vals)) or not np.all(np.isfinite(B)):
+        return 'non-finite or mis-shaped eigenpairs'
+    if np.abs(B.T @ B - np.eye(k)).max() > 1e-8:
+        return 'basis vectors are not orthonormal'
+    res = np.abs(P @ B - B * vals[None, :]).max() / scale
+    if res > 1e-8:
+        return f"basis vectors are not eigenvectors of D'D for difference order {d} (relative residual {res:.3g})"
+    ref = np.linalg.eigvalsh(P)[:k]
+    if np.abs(ref - vals).max() / scale > 1e-8:
+        return f"penalty values are not the {k} smallest eigenvalues of D'D for difference order {d}"
+    return None
+
+
+def eigen_system_fail(ws, shape, lam, dorder, neig, dtd):
+    (m, n), (l1, l2), (d1, d2), (k1, k2) = shape, lam, dorder, neig
+    if ws.basis_r.shape != (m, k1) or ws.basis_c.shape != (n, k2) or ws.penalty.shape != (k1 * k2,):
+        return 'shapes of the eigen-basis / penalty do not match the request'
+    pr = np.asarray(ws.penalty_rows).reshape(k1, k2)
+    pc = np.asarray(ws.penalty_columns).reshape(k1, k2)
+    if not (np.all(pr == pr[:, :1]) and np.all(pc == pc[:1, :])):
+        return 'penalty is not of the Kronecker form repeat(rows) + tile(columns)'
+    if not np.allclose(ws.penalty, ws.penalty_rows + ws.penalty_columns, rtol=1e-13, atol=0):
+        return 'penalty != penalty_rows + penalty_columns'
+    f = eigen_axis_fail(dtd[(m, d1)], pr[:, 0] / l1, np.asarray(ws.basis_r), d1)
+    if f:
+        return 'rows: ' + f
+    f = eigen_axis_fail(dtd[(n, d2)], pc[0, :] / l2, np.asarray(ws.basis_c), d2)
+    if f:
+        return 'columns: ' + f
+    return None
+
+
+def kron_system_fail(pen, nb, lam, dorder, dtd):
+    (m, n), (l1, l2), (d1, d2) = nb, lam, dorder
+    want = l1 * np.kron(dtd[(m, d1)], np.eye(n)) + l2 * np.kron(np.eye(m), dtd[(n, d2)])
+    got = pen.toarray() if hasattr(pen, 'toarray') else np.asarray(pen)
+    if got.shape != want.shape:
+        return f'penalty has shape {got.shape}, expected {want.shape}'
+    if not np.array_equal(got, want):
+        return "penalty != lam_r kron(D_r'D_r, I) + lam_c kron(I, D_c'D_c)"
+    return None
+
+
+def cases_2d(ctx, rng):
+    """(kind, shape, history) with history = [(lam pair, diff_order pair), ...]; kind in eigen / kron / pspline"""
+    out = []
+    shapes = [(9, 9), (12, 12), (9, 12), (12, 9), (15, 15), (7, 10)]
+    lams = [1.0, 0.5, 4.0, 16.0, 1024.0]
+    # directed: every combination of (square?, equal number of eigenvalues?, equal orders?) at least once
+    for (m, n) in ((9, 9), (9, 12)):
+        for neig in ((5, 5), (5, 6)):
+            for d in ((2, 2), (1, 2), (3, 2)):
+                out.append(('eigen', (m, n), neig, [((4.0, 0.5), d)]))
+                out.append(('eigen', (m, n), neig, [((1.0, 1.0), (d[1], d[1])), ((4.0, 0.5), d)]))
+    for _ in range(90 if ctx.thorough else 30):
+        kind = ['eigen', 'eigen', 'kron', 'pspline'][int(rng.integers(0, 4))]
+        m, n = shapes[int(rng.integers(0, len(shapes)))]
+        L = int(rng.integers(1, 4))
+        hist = []
+        for _ in range(L):
+            d = (int(rng.integers(1, 4)), int(rng.integers(1, 4)))
+            if rng.random() < 0.3:
+                d = (d[0], d[0])
+            hist.append(((lams[int(rng.integers(0, len(lams)))], lams[int(rng.integers(0, len(lams)))]), d))
+        if kind == 'eigen':
+            k = int(rng.integers(4, 8))
+            neig = (k, k) if rng.random() < 0.6 else (k, int(rng.integers(4, 8)))
+        else:
+            neig = None
+        out.append((kind, (m, n), neig, hist))
+    return out
+
+
+def run_case_2d(kind, shape, neig, hist, dtd=None):
+    """builds the real system the way the methods do, replays the history on it, and returns (failure or None, needed (n, d) pairs)"""
+    import warnings
+    from pybaselines import Baseline2D
+    from pybaselines.two_d._whittaker_utils import WhittakerSystem2D, PenalizedSystem2D
+    from pybaselines.two_d._spline_utils import PSpline2D, SplineBasis2D
+    m, n = shape
+    need = []
+    with warnings.catch_warnings():
+        warnings.simplefilter('ignore')
+        if kind == 'pspline':
+            basis = SplineBasis2D(np.linspace(0, 1, m + 6), np.linspace(-1, 1, n + 6), (m - 2, n - 2), (3, 3))
+            nb = tuple(int(v) for v in basis._num_bases)
+            need = [(nb[0], d[0]) for _, d in hist] + [(nb[1], d[1]) for _, d in hist]
+            if dtd is None:
+                return None, need
+            s = PSpline2D(basis, *hist[0])
+            for h in hist[1:]:
+                s.reset_penalty(*h)
+            fresh = PSpline2D(basis, *hist[-1])
+            f = kron_system_fail(s.penalty, nb, hist[-1][0], hist[-1][1], dtd)
+            if not f and (s.penalty != fresh.penalty).nnz:
+                f = 'reused PSpline2D differs from a fresh one'
+            return f, need
+        need = [(m, d[0]) for _, d in hist] + [(n, d[1]) for _, d in hist]
+        if dtd is None:
+            return None, need
+        fit = Baseline2D(np.arange(m, dtype=float), np.arange(n, dtype=float))
+        _, _, s = fit._setup_whittaker(np.zeros((m, n)), hist[0][0], hist[0][1], None, num_eigens=neig)
+        for h in hist[1:]:
+            s.reset_diagonals(*h)
+        fresh = WhittakerSystem2D((m, n), hist[-1][0], hist[-1][1], neig)
+        if kind == 'kron':
+            f = kron_system_fail(s.penalty, (m, n), hist[-1][0], hist[-1][1], dtd)
+            if not f and (s.penalty != fresh.penalty).nnz:
+                f = 'reused system differs from a fresh one'
+            if not f:
+                f = kron_system_fail(PenalizedSystem2D((m, n), *hist[-1]).penalty, (m, n), hist[-1][0], hist[-1][1], dtd)
+            return f, need
+        f = eigen_system_fail(s, (m, n), hist[-1][0], hist[-1][1], neig, dtd)
+        if not f and not (np.allclose(s.penalty, fresh.penalty, rtol=1e-9, atol=1e-9 * np.abs(fresh.penalty).max())
+                          and np.allclose(s.basis_r @ s.basis_r.T, fresh.basis_r @ fresh.basis_r.T, atol=1e-8)
+                          and np.allclose(s.basis_c @ s.basis_c.T, fresh.basis_c @ fresh.basis_c.T, atol=1e-8)):
+            f = 'reused eigen-system differs from a fresh one'
+        if not f and len(hist) == 1:
+            # update_penalty (lam only) must agree with a rebuild
+            lam2 = (hist[0][0][1] * 2, hist[0][0][0] * 8)
+            s.update_penalty(lam2)
+            f = eigen_system_fail(s, (m, n), lam2, hist[0][1], neig, dtd)
+        return f, need
+
+
+def correspond_2d(ctx, rng, dis):
+    cases = cases_2d(ctx, rng)
+    need = []
+    for c in cases:
+        need += run_case_2d(*c)[1]
+    dtd = dtd_from_model(need)
+    ctx.traces += len(dtd)
+    for kind, shape, neig, hist in cases:
+        try:
+            f, _ = run_case_2d(kind, shape, neig, hist, dtd)
+        except Exception as e:
+            f = f'{type(e).__name__}: {e}'
+        ctx.case(('2d', kind, shape, neig, tuple(hist)), nontrivial=True,
+                 sample={'kind': '2-D ' + kind, 'shape': shape, 'num_eigens': neig, 'history': hist} if kind == 'eigen' and shape[0] == shape[1] else None)
+        ctx.count('2d:' + kind + (':square' if shape[0] == shape[1] else ''))
+        if f:
+            dis.append(Disagreement('c11.2d', f'2d:{kind}', f'2-D {kind} system shape={shape} num_eigens={neig} history={hist}: {f}',
+                                    {'kind': '2d', 'sys': kind, 'shape': list(shape), 'num_eigens': neig, 'history': hist}, True))
+
+
 def correspond(ctx):
     from pybaselines import _banded_utils as bu
     from pybaselines import utils
@@ -212,6 +373,7 @@ def correspond(ctx):
         if not sys_equal(ps, fr):
             dis.append(Disagreement('c11.pspline', 'pspline:history', f'PSpline reused with {hist} differs from fresh',
                                     {'kind': 'pspline', 'num_knots': nk, 'degree': deg, 'history': hist}, True))
+    correspond_2d(ctx, rng, dis)
     res = drive(lines)
     ctx.traces += len(lines)
     for ln, r, e, m in zip(lines, res, expect, meta):
@@ -330,6 +492,14 @@ def replay(ctx, data):
         except Exception as e:
             return f'{type(e).__name__}: {e}'
         return fail
+    if r.get('kind') == '2d':
+        hist = [((h[0][0], h[0][1]), (h[1][0], h[1][1])) for h in r['history']]
+        neig = tuple(r['num_eigens']) if r['num_eigens'] else None
+        try:
+            need = run_case_2d(r['sys'], tuple(r['shape']), neig, hist)[1]
+            return run_case_2d(r['sys'], tuple(r['shape']), neig, hist, dtd_from_model(need))[0]
+        except Exception as e:
+            return f'{type(e).__name__}: {e}'
     if r.get('kind') == 'diags':
         real = bu.diff_penalty_diagonals(r['n'], r['d'], r['lower'], r['padding'])
         return None if _bands_denote_dtd(np.asarray(real), r['n'], r['d'], r['lower'], r['padding']) else "bands do not denote D'D"
